@@ -191,6 +191,21 @@ def histories(tier):
                             for wrap in ((False, True) if (tier != "quick" or s2["n"] <= 2) else (False,)):
                                 cid = json.dumps([nP, s1, m1, s2, m2, g2, wrap], separators=(",", ":"))
                                 yield cid, nP, ([] if s1 is None else [(s1, m1)]), (dict(s2, wrap=wrap, seed=2), m2, g2)
+    # parents that already hold THREE ancillas (a fully heralded block, or 3 of 4 modes heralded; also two earlier additions), then a heralded addition:
+    # several pass-through modes have to be inserted into the added circuit one after the other
+    many = [dict(n=3, heralds=[(0, 0, 0), (1, 1, 1), (0, 2, 2)]), dict(n=3, heralds=[(1, 2, 0), (0, 0, 1), (1, 1, 2)]),
+            dict(n=4, heralds=[(0, 0, 0), (1, 1, 1), (0, 3, 3)]), dict(n=4, heralds=[(1, 3, 0), (0, 0, 1), (1, 1, 3)])]
+    two = [[dict(n=2, heralds=[(1, 1, 1)]), dict(n=3, heralds=[(0, 0, 0), (1, 2, 2)])], [dict(n=3, heralds=[(1, 2, 0), (0, 0, 2)]), dict(n=2, heralds=[(0, 0, 1)])]]
+    finals = [s_ for s_ in subs if s_["heralds"]]
+    for nP in range(1, maxP + 1):
+        for e in [[x] for x in many] + two:
+            for m1 in range(nP):
+                for s2 in finals:
+                    for m2 in range(nP):
+                        for g2 in (False, True):
+                            earlier = [(e[0], m1)] + [(x, min(m1, nP - 1)) for x in e[1:]]
+                            cid = json.dumps([nP, e, m1, s2, m2, g2, "many"], separators=(",", ":"))
+                            yield cid, nP, earlier, (dict(s2, wrap=False, seed=2), m2, g2)
 
 
 def run_history(nP, earlier, final):
